@@ -2,17 +2,18 @@
 #include "pktitr.h"
 #include "pktitr.c"
 
+/* the CIF / container / loop handles are static objects (zero-initialised): pointer chains through them stay precise for CBMC */
+static cif_tp the_cif; static cif_container_tp the_container; static cif_loop_tp the_loop;
 static cif_pktitr_tp *make_iterator(int with_stmts) {
-    cif_tp *cif = malloc(sizeof *cif); __CPROVER_assume(cif != NULL);
-    memset(cif, 0, sizeof *cif);
+    cif_tp *cif = &the_cif;
     cif->db = (sqlite3 *)&g_cat_kind;   /* an opaque non-NULL handle */
     if (with_stmts & 1) { cif->remove_packet_stmt = malloc(sizeof(struct sqlite3_stmt)); __CPROVER_assume(cif->remove_packet_stmt != NULL); cif->remove_packet_stmt->is_write = 1; }
     if (with_stmts & 2) { cif->reset_packet_num_stmt = malloc(sizeof(struct sqlite3_stmt)); __CPROVER_assume(cif->reset_packet_num_stmt != NULL); cif->reset_packet_num_stmt->is_write = 1; }
     if (with_stmts & 4) { cif->update_value_stmt = malloc(sizeof(struct sqlite3_stmt)); __CPROVER_assume(cif->update_value_stmt != NULL); cif->update_value_stmt->is_write = 1; }
-    cif_container_tp *c = malloc(sizeof *c); __CPROVER_assume(c != NULL); c->cif = cif; c->id = 1; c->code = NULL; c->code_orig = NULL; c->parent_id = 0;
-    cif_loop_tp *l = malloc(sizeof *l); __CPROVER_assume(l != NULL); l->container = c; l->loop_num = nondet_int(); l->category = NULL; l->names = NULL;
+    the_container.cif = cif; the_container.id = 1;
+    the_loop.container = &the_container; the_loop.loop_num = nondet_int();
     cif_pktitr_tp *it = malloc(sizeof *it); __CPROVER_assume(it != NULL);
-    it->stmt = NULL; it->loop = l; it->item_names = NULL; it->name_set = NULL; it->previous_row_num = nondet_int(); it->finished = nondet_int();
+    it->stmt = NULL; it->loop = &the_loop; it->item_names = NULL; it->name_set = NULL; it->previous_row_num = nondet_int(); it->finished = nondet_int();
     return it;
 }
 static void sql_state(void) {
